@@ -87,10 +87,10 @@ def _is_place(x):
     return isinstance(x, dict) and set(x.keys()) == {"l", "p"} and isinstance(x["p"], list)
 
 
-def _remap(node, lo, bo):
-    """deep copy of a MIR json node with locals shifted by lo and block indices by bo"""
+def _remap(node, lo, bo, po=0):
+    """deep copy of a MIR json node with locals shifted by lo, block indices by bo and promoted-constant indices by po"""
     if isinstance(node, list):
-        return [_remap(x, lo, bo) for x in node]
+        return [_remap(x, lo, bo, po) for x in node]
     if not isinstance(node, dict):
         return node
     if _is_place(node):
@@ -107,8 +107,10 @@ def _remap(node, lo, bo):
             out[k] = v + bo
         elif k == "targets" and "t" in node:
             out[k] = [[val, b + bo] for val, b in v]
+        elif k == "promoted" and isinstance(v, int) and not isinstance(v, bool):
+            out[k] = v + po
         else:
-            out[k] = _remap(v, lo, bo)
+            out[k] = _remap(v, lo, bo, po)
     return out
 
 
@@ -238,13 +240,17 @@ class Inliner:
                 lo = len(rec["locals"])
                 bo = len(rec["blocks"])
                 rec["locals"].extend(copy.deepcopy(callee["locals"]))
+                po = len(rec.setdefault("promoted", []) or [])
+                if rec.get("promoted") is None:
+                    rec["promoted"] = []
+                rec["promoted"].extend(copy.deepcopy(callee.get("promoted") or []))
                 # bind parameters
                 for i, a in enumerate(args):
                     b["stmts"].append({"lhs": {"l": lo + 1 + i, "p": []}, "rv": {"r": "use", "o": copy.deepcopy(a)},
                                        "sp": t.get("sp"), "exp": t.get("exp"), "inl": desc})
                 dest, to = t["dest"], t.get("to")
                 for cb in callee["blocks"]:
-                    nb = _remap(cb, lo, bo)
+                    nb = _remap(cb, lo, bo, po)
                     nb["i"] = cb["i"] + bo
                     nt = nb.get("term")
                     if nt and nt["t"] == "return" and not nb.get("cleanup"):
